@@ -8,3 +8,16 @@ mixed do_call (mixed target, string fn, mixed *args...) {
 }
 // function pointers made by the generated objects and evaluated HERE, by another object
 mixed do_eval (function f) { return evaluate (f, 21, 22, 23); }
+// a functional stored by a generated object; it is handed back to that object only (any of its functions, of any
+// inherit level, may then evaluate it)
+mixed stashed; object stash_owner;
+void stash (function f) { stashed = f; stash_owner = previous_object (); }
+mixed get_stash () {
+  mixed f;
+  if (!stash_owner || stash_owner != previous_object ()) return 0;
+  f = stashed; stashed = 0; stash_owner = 0;     // fetched once
+  return f;
+}
+// the same through efun callbacks running in THIS object
+mixed do_map (function f) { return map_array (({ 1 }), f); }
+mixed do_filter (function f) { return filter_array (({ 1 }), f); }
